@@ -1,7 +1,10 @@
 package c03
 
 import (
+	"encoding/json"
 	"fmt"
+	"os"
+	"path/filepath"
 	"sync"
 	"time"
 
@@ -30,6 +33,8 @@ type unit struct {
 	EnvSet string      `json:"envSet,omitempty"`
 	Want   interface{} `json:"want,omitempty"`
 	Tol    bool        `json:"tol,omitempty"`
+	NoG    bool        `json:"noG,omitempty"` // the program text does not mention G
+	NoO    bool        `json:"noO,omitempty"` // the program text does not mention o
 }
 
 // a job = one script per variant (srcs[0] = the input program(s)), run once per
@@ -107,6 +112,10 @@ func runNode(r *core.Run, in nodeIn, workers int, timeout time.Duration) map[str
 		wg.Add(1)
 		go func(part nodeIn) {
 			defer wg.Done()
+			if d := os.Getenv("C03_DUMP_NODE"); d != "" {
+				b, _ := json.Marshal(part)
+				os.WriteFile(filepath.Join(d, fmt.Sprintf("node-%s.json", part.Jobs[0].ID)), b, 0644)
+			}
 			var res nodeOut
 			if err := nodex.Run(r, "run_probes.js", part, &res, timeout, "", "--stack-size=4000"); err != nil {
 				r.Infra("probe runner failed on a batch of %d programs: %v", len(part.Jobs), err)
